@@ -83,50 +83,16 @@ that failed its last probe), provided fallbacks are configured and at least one 
 without the refresh the list is the initial one.  Stated for the state after any refresh. -/
 theorem rotation_invariant (c : Cfg) (s : St) (pr : Nat → Probe) (hf : c.nFb > 0) (u : Nat) :
     u ∈ (refresh c s pr).1.active ↔ (u < c.nMain ∧ (refresh c s pr).1.lastFailed u = none) := by
-  have hf' : ¬ c.nFb = 0 := by omega
-  have hcl := hcFold_closed c.backoff pr s.lastFailed c.nMain
-  simp only [refresh, hf', if_false, hcLoop]
-  rw [hcl.2 u, hcl.1 u]
-  constructor
-  · rintro ⟨h1, h2, h3⟩
-    exact ⟨h1, by simp [h1, lfAfter, h2, h3]⟩
-  · rintro ⟨h1, h2⟩
-    simp only [h1, if_true, lfAfter] at h2
-    refine ⟨h1, ?_⟩
-    by_cases hs : skips c.backoff pr s.lastFailed u = true
-    · -- skipped means a recorded failure: contradiction with `none`
-      simp only [hs, if_true] at h2
-      simp [skips, h2, inBackoff] at hs
-    · have hs' : skips c.backoff pr s.lastFailed u = false := by simpa using hs
-      simp only [hs', Bool.false_eq_true, if_false] at h2
-      refine ⟨hs', ?_⟩
-      by_cases hok : (pr u).ok = true
-      · exact hok
-      · simp [hok] at h2
-
-/-- Non-vacuity of the monitor: it rejects a query to an upstream whose last probe failed, and a
-re-probe inside the backoff window; and a concrete history with an outage and a recovery. -/
-example : Mon.accepts 5 Mon.init [.probe 0 10 false 10, .query [.main 0] (.answered 1)] = false := by decide
-example : Mon.accepts 5 Mon.init [.probe 0 10 false 10, .probe 0 14 true 14] = false := by decide
-example : Mon.accepts 5 Mon.init [.probe 0 10 false 10, .probe 0 15 true 15, .query [.main 0] (.answered 1)] = true := by
-  decide
-def exOps : List Op :=
-  [.refresh (fun _ => ⟨10, false, 10⟩), .query 0 (fun _ => .reply 1) 0 (fun _ => .reply 2),
-   .refresh (fun _ => ⟨14, true, 14⟩), .query 0 (fun _ => .reply 1) 0 (fun _ => .reply 2),
-   .refresh (fun _ => ⟨15, true, 15⟩), .query 0 (fun _ => .reply 1) 0 (fun _ => .reply 2)]
-example : (run ⟨1, 1, 5⟩ (St.init ⟨1, 1, 5⟩) exOps).2 =
-    [.probe 0 10 false 10, .query [.fb 0] (.answered 2), .query [.fb 0] (.answered 2),
-     .probe 0 15 true 15, .query [.main 0] (.answered 1)] := by decide
-
-/-! ## (d) when a probe succeeds again, traffic returns to the main upstreams -/
+  have hf' : c.nFb ≠ 0 := by omega
+  rw [refresh_active_eq c s pr hf', mem_healthyList]
 
 /-- **recovery.** In any state, a refresh round (fallbacks configured) in which upstream `u` is
-not inside its backoff window — it never failed, or `backoff ≤ now − lastFailed` — and its probe
-succeeds puts `u` back into the active list and clears its failure stamp; and after such a round
+not inside its backoff window — it never failed, or `backoff ≤ now − lastFailed` —, is reached
+before the context of the round is done and its probe succeeds puts `u` back into the active list and clears its failure stamp; and after such a round
 every query is sent to an active main upstream first (a fallback only after that upstream's
 network error). -/
 theorem recovery (c : Cfg) (s : St) (pr : Nat → Probe) (u : Nat) (hf : c.nFb > 0) (hu : u < c.nMain)
-    (hok : (pr u).ok = true)
+    (hok : (pr u).ok = true) (hd : (pr u).ctxDone = false)
     (hb : ∀ f, s.lastFailed u = some f → c.backoff ≤ (pr u).tCheck - f) :
     let s' := (refresh c s pr).1
     u ∈ s'.active ∧ s'.lastFailed u = none ∧
@@ -145,7 +111,7 @@ theorem recovery (c : Cfg) (s : St) (pr : Nat → Probe) (u : Nat) (hf : c.nFb >
     have hcl := hcFold_closed c.backoff pr s.lastFailed c.nMain
     have hf' : ¬ c.nFb = 0 := by omega
     simp only [s', refresh, hf', if_false, hcLoop]
-    exact (hcl.2 u).2 ⟨hu, hsk, hok⟩
+    exact (hcl.2 u).2 ⟨hu, by simp [keeps, hd, hsk, hok]⟩
   refine ⟨hmem, ((rotation_invariant c s pr hf u).1 hmem).2, ?_⟩
   intro pick om pickFb ofb
   cases hp : pickActive s' pick with
@@ -161,8 +127,8 @@ theorem recovery (c : Cfg) (s : St) (pr : Nat → Probe) (u : Nat) (hf : c.nFb >
 
 /-- Non-vacuity: exactly at the boundary `now − lastFailed = backoff` the upstream is probed and
 reinstated; one tick earlier it is skipped and stays out. -/
-example : ((refresh ⟨1, 1, 5⟩ ⟨[], fun _ => some 10⟩ (fun _ => ⟨15, true, 15⟩)).1.active = [0]) ∧
-    ((refresh ⟨1, 1, 5⟩ ⟨[], fun _ => some 10⟩ (fun _ => ⟨14, true, 14⟩)).1.active = []) := by
+example : ((refresh ⟨1, 1, 5⟩ ⟨[], fun _ => some 10⟩ (fun _ => ⟨15, true, 15, false⟩)).1.active = [0]) ∧
+    ((refresh ⟨1, 1, 5⟩ ⟨[], fun _ => some 10⟩ (fun _ => ⟨14, true, 14, false⟩)).1.active = []) := by
   constructor <;> decide
 
 /-! ## (f) without fallbacks nothing is ever taken out of rotation -/
@@ -192,7 +158,7 @@ theorem no_fallbacks_never_out (c : Cfg) (h : c.nFb = 0) (ops : List Op) :
     simp [serve, hp, h]
 
 example : (run ⟨2, 0, 5⟩ (St.init ⟨2, 0, 5⟩)
-    [.refresh (fun _ => ⟨10, false, 10⟩), .query 1 (fun _ => .netErr) 0 (fun _ => .reply 2)]).2 =
+    [.refresh (fun _ => ⟨10, false, 10, false⟩), .query 1 (fun _ => .netErr) 0 (fun _ => .reply 2)]).2 =
     [.query [.main 1] .servfail] := by decide
 
 /-! ## (e) a reply is accepted only if id, question name and type match -/
@@ -435,8 +401,8 @@ theorem no_fallbacks_never_out_new (c : Cfg) (h : c.nFb = 0) (init : Option (Nat
   rw [hp]
   exact ⟨(no_fallbacks_never_out c h (pre ++ ops)).1, (no_fallbacks_never_out c h (pre ++ ops)).2.1⟩
 
-example : (runNew ⟨2, 0, 5⟩ (some (fun _ => ⟨0, false, 0⟩)) []).1.active = [0, 1] := by decide
-example : (runNew ⟨2, 1, 5⟩ (some (fun u => ⟨0, u == 1, 0⟩)) []).1.active = [1] := by decide
+example : (runNew ⟨2, 0, 5⟩ (some (fun _ => ⟨0, false, 0, false⟩)) []).1.active = [0, 1] := by decide
+example : (runNew ⟨2, 1, 5⟩ (some (fun u => ⟨0, u == 1, 0, false⟩)) []).1.active = [1] := by decide
 
 /-- **in_backoff_stays_out.** Inside the backoff window nothing the upstream would answer matters:
 a round at a clock reading less than `backoff` after the recorded failure leaves the upstream out
@@ -452,23 +418,22 @@ theorem in_backoff_stays_out (c : Cfg) (s : St) (pr : Nat → Probe) (u : Nat) (
   simp only [refresh, hf', if_false, hcLoop]
   constructor
   · intro hm
-    have := ((hcl.2 u).1 hm).2.1
-    rw [hsk] at this
-    simp at this
+    have := ((hcl.2 u).1 hm).2
+    cases hd : (pr u).ctxDone <;> simp [keeps, hd, hsk, hl] at this
   · rw [hcl.1 u]
-    simp [hu, lfAfter, hsk, hl]
+    cases hd : (pr u).ctxDone <;> simp [hu, lfAfter, hd, hsk, hl]
 
-example : (refresh ⟨1, 1, 5⟩ ⟨[], fun _ => some 10⟩ (fun _ => ⟨14, true, 14⟩)).1.lastFailed 0 = some 10 := by
+example : (refresh ⟨1, 1, 5⟩ ⟨[], fun _ => some 10⟩ (fun _ => ⟨14, true, 14, false⟩)).1.lastFailed 0 = some 10 := by
   decide
 
 /-- **recovered_can_be_chosen.** Under the hypotheses of `recovery` the reinstated upstream is
 itself eligible: some value of the random pick sends the query to it first. -/
 theorem recovered_can_be_chosen (c : Cfg) (s : St) (pr : Nat → Probe) (u : Nat) (hf : c.nFb > 0)
-    (hu : u < c.nMain) (hok : (pr u).ok = true)
+    (hu : u < c.nMain) (hok : (pr u).ok = true) (hd : (pr u).ctxDone = false)
     (hb : ∀ f, s.lastFailed u = some f → c.backoff ≤ (pr u).tCheck - f) :
     ∃ pick, ∀ om pickFb ofb,
       (serve c (refresh c s pr).1 pick om pickFb ofb).calls.head? = some (.main u) := by
-  have hmem := (recovery c s pr u hf hu hok hb).1
+  have hmem := (recovery c s pr u hf hu hok hd hb).1
   obtain ⟨i, hi, hget⟩ := List.getElem_of_mem hmem
   refine ⟨i, ?_⟩
   intro om pickFb ofb
@@ -478,6 +443,137 @@ theorem recovered_can_be_chosen (c : Cfg) (s : St) (pr : Nat → Probe) (u : Nat
   unfold serve
   simp only [hp]
   by_cases h : om u = .netErr ∧ c.nFb > 0 <;> simp [h]
+
+/-! ## (i) the context of a round: upstreams that hang must not starve the others
+
+The probes of a round share one deadline.  Found on the unchanged code in the fourth audit: a main
+upstream that does not answer used up the deadline, and every upstream after it in the list was
+recorded as failed without anything having been sent to it (`starved_main_counterexample`).  As
+fixed, an upstream whose turn comes when the context is done keeps its status. -/
+
+/-- **not_probed_keeps_status.** An upstream reached when the context of the round is done is not
+probed (no probe event carries its index), its failure stamp is untouched, and it is in the new
+active list iff it is configured and has no failure recorded. -/
+theorem not_probed_keeps_status (c : Cfg) (s : St) (pr : Nat → Probe) (u : Nat) (hf : c.nFb > 0)
+    (hd : (pr u).ctxDone = true) :
+    (refresh c s pr).1.lastFailed u = s.lastFailed u ∧
+    (u ∈ (refresh c s pr).1.active ↔ (u < c.nMain ∧ s.lastFailed u = none)) ∧
+    ∀ t ok tf, Ev.probe u t ok tf ∉ (refresh c s pr).2.1 := by
+  have hf' : ¬ c.nFb = 0 := by omega
+  have hcl := hcFold_closed c.backoff pr s.lastFailed c.nMain
+  have hlf : (refresh c s pr).1.lastFailed u = s.lastFailed u := by
+    simp only [refresh, hf', if_false, hcLoop]
+    rw [hcl.1 u]
+    by_cases h1 : u < c.nMain <;> simp [h1, lfAfter, hd]
+  refine ⟨hlf, ?_, ?_⟩
+  · rw [rotation_invariant c s pr hf u, hlf]
+  · intro t ok tf hm
+    simp only [refresh, hf', if_false, hcLoop] at hm
+    obtain ⟨v, _, hv, _, he⟩ := (hcFold_evs_mem c.backoff pr s.lastFailed c.nMain _).1 hm
+    injection he with h1
+    subst h1
+    rw [hd] at hv
+    exact Bool.noConfusion hv
+
+/-- **removed_only_by_own_failed_probe.** A main upstream that is in rotation (no failure
+recorded) and is not in the active list after a round was reached with a live context, was sent a
+probe in this round (the event is in the trace) and that probe failed.  Nothing another upstream
+does, and no shortage of time, takes an upstream out of rotation. -/
+theorem removed_only_by_own_failed_probe (c : Cfg) (s : St) (pr : Nat → Probe) (u : Nat)
+    (hf : c.nFb > 0) (hu : u < c.nMain) (hl : s.lastFailed u = none)
+    (hout : u ∉ (refresh c s pr).1.active) :
+    (pr u).ctxDone = false ∧ (pr u).ok = false ∧
+    Ev.probe u (pr u).tCheck false (pr u).tFail ∈ (refresh c s pr).2.1 := by
+  have hf' : ¬ c.nFb = 0 := by omega
+  have hcl := hcFold_closed c.backoff pr s.lastFailed c.nMain
+  have hsk : skips c.backoff pr s.lastFailed u = false := by simp [skips, inBackoff, hl]
+  have hk : keeps c.backoff pr s.lastFailed u = false := by
+    cases h : keeps c.backoff pr s.lastFailed u with
+    | false => rfl
+    | true =>
+      exfalso; apply hout
+      simp only [refresh, hf', if_false, hcLoop]
+      exact (hcl.2 u).2 ⟨hu, h⟩
+  have hd : (pr u).ctxDone = false := by
+    cases h : (pr u).ctxDone with
+    | false => rfl
+    | true => simp [keeps, h, hl] at hk
+  have hok : (pr u).ok = false := by
+    cases h : (pr u).ok with
+    | false => rfl
+    | true => simp [keeps, hd, hsk, h] at hk
+  refine ⟨hd, hok, ?_⟩
+  simp only [refresh, hf', if_false, hcLoop]
+  rw [hcFold_evs_mem]
+  exact ⟨u, hu, hd, hsk, by rw [hok]⟩
+
+/-- **healthy_main_stays.** At the level of upstream behaviour (`probesOf`: the context is done for
+everybody after an upstream that hung, or from the start): a main upstream in rotation that answers
+its probes is in rotation after the round — whatever the other upstreams do, wherever it stands in
+the list, and even if the round has no time at all. -/
+theorem healthy_main_stays (c : Cfg) (s : St) (t : Int) (dead0 : Bool) (beh : Nat → PBeh) (u : Nat)
+    (hf : c.nFb > 0) (hu : u < c.nMain) (hl : s.lastFailed u = none) (hb : beh u = .ok) :
+    u ∈ (refresh c s (probesOf c.backoff s.lastFailed t dead0 beh)).1.active := by
+  cases hin : decide (u ∈ (refresh c s (probesOf c.backoff s.lastFailed t dead0 beh)).1.active) with
+  | true => simpa using hin
+  | false =>
+    have hout : u ∉ (refresh c s (probesOf c.backoff s.lastFailed t dead0 beh)).1.active := by
+      simpa using hin
+    have := (removed_only_by_own_failed_probe c s _ u hf hu hl hout).2.1
+    simp [probesOf, hb] at this
+
+/-- **dead_round_changes_nothing.** A round whose context is done from the start (cancelled at
+shutdown, or an already expired deadline) probes nobody and records nothing. -/
+theorem dead_round_changes_nothing (c : Cfg) (s : St) (t : Int) (beh : Nat → PBeh) (hf : c.nFb > 0) :
+    (∀ u, (refresh c s (probesOf c.backoff s.lastFailed t true beh)).1.lastFailed u = s.lastFailed u) ∧
+    (refresh c s (probesOf c.backoff s.lastFailed t true beh)).2.1 = [] ∧
+    (refresh c s (probesOf c.backoff s.lastFailed t true beh)).1.active = healthyList c s.lastFailed := by
+  have hd : ∀ u, (probesOf c.backoff s.lastFailed t true beh u).ctxDone = true := by
+    intro u; simp [probesOf, deadBefore_of_dead0]
+  have hlf : ∀ u, (refresh c s (probesOf c.backoff s.lastFailed t true beh)).1.lastFailed u = s.lastFailed u :=
+    fun u => (not_probed_keeps_status c s _ u hf (hd u)).1
+  refine ⟨hlf, ?_, ?_⟩
+  · have hf' : ¬ c.nFb = 0 := by omega
+    simp only [refresh, hf', if_false, hcLoop]
+    apply List.eq_nil_iff_forall_not_mem.2
+    intro e he
+    obtain ⟨v, _, hv, _⟩ := (hcFold_evs_mem c.backoff _ s.lastFailed c.nMain e).1 he
+    rw [hd v] at hv
+    exact Bool.noConfusion hv
+  · rw [refresh_active_eq c s _ (by omega)]
+    unfold healthyList
+    apply List.filter_congr
+    intro u _
+    rw [hlf u]
+
+/-- **starved_main_counterexample.** The code before the fix does not have this property: two main
+upstreams, one fallback, nothing recorded; main 0 hangs, main 1 answers.  The old loop records a
+failure for main 1 as well and empties the active list — every query then goes to the fallback —
+while the fixed loop keeps main 1. -/
+theorem starved_main_counterexample :
+    ¬ (∀ (c : Cfg) (s : St) (t : Int) (beh : Nat → PBeh) (u : Nat), c.nFb > 0 → u < c.nMain →
+        s.lastFailed u = none → beh u = .ok →
+        u ∈ (refreshOld c s (probesOf c.backoff s.lastFailed t false beh)).active) := by
+  intro h
+  have := h ⟨2, 1, 30⟩ (St.init ⟨2, 1, 30⟩) 100 (fun u => if u = 0 then .hang else .ok) 1
+    (by decide) (by decide) rfl rfl
+  revert this
+  decide
+
+example : (refreshOld ⟨2, 1, 30⟩ (St.init ⟨2, 1, 30⟩)
+      (probesOf 30 (fun _ => none) 100 false (fun u => if u = 0 then .hang else .ok))).active = [] ∧
+    (refresh ⟨2, 1, 30⟩ (St.init ⟨2, 1, 30⟩)
+      (probesOf 30 (fun _ => none) 100 false (fun u => if u = 0 then .hang else .ok))).1.active = [1] ∧
+    (serve ⟨2, 1, 30⟩ ⟨[], fun _ => some 100⟩ 0 (fun _ => .reply 1) 0 (fun _ => .reply 2)).calls = [.fb 0] := by
+  decide
+
+/-- Non-vacuity: a hanging upstream in backoff is not probed and uses up nothing; the upstream after
+a hanging one is reached with a dead context; with three upstreams the last one is kept too. -/
+example : deadBefore 30 (fun _ => some 90) 100 false (fun _ => .hang) 1 = false ∧
+    deadBefore 30 (fun _ => none) 100 false (fun _ => .hang) 1 = true ∧
+    (refresh ⟨3, 1, 30⟩ (St.init ⟨3, 1, 30⟩)
+      (probesOf 30 (fun _ => none) 100 false (fun u => if u = 0 then .hang else .ok))).1.active = [1, 2] := by
+  decide
 
 /-! ## (h) queries that arrive while a health-check round is running -/
 
@@ -503,7 +599,7 @@ def exQ : QArgs := ⟨0, fun _ => .reply 1, 0, fun _ => .reply 2⟩
 /-- Two upstreams; in the round upstream 0 fails its probe, and while upstream 1 is being
 probed a query arrives. -/
 def exIOps : List IOp :=
-  [.refresh (fun u => ⟨10, u == 1, 10⟩) (fun u => if u = 1 then [exQ] else []), .query exQ]
+  [.refresh (fun u => ⟨10, u == 1, 10, false⟩) (fun u => if u = 1 then [exQ] else []), .query exQ]
 
 /-- **stale_use_inside_round.** The stronger reading "never after the probe failed" does not hold
 for the code: the query that arrives while upstream 1 is being probed is still sent to upstream 0,
@@ -728,6 +824,11 @@ example : legalLabels [[97, 128], [66]] ∧ presName [[97, 128], [66]] = [97, 92
 #print axioms no_fallbacks_never_out_new
 #print axioms in_backoff_stays_out
 #print axioms recovered_can_be_chosen
+#print axioms not_probed_keeps_status
+#print axioms removed_only_by_own_failed_probe
+#print axioms healthy_main_stays
+#print axioms dead_round_changes_nothing
+#print axioms starved_main_counterexample
 #print axioms backoff_respected_interleaved
 #print axioms interleaved_round_same_result
 #print axioms stale_use_inside_round
@@ -765,6 +866,7 @@ end Agd.Forward
 #print axioms Agd.Tie.TrC17.hcUpstream_tr
 #print axioms Agd.Tie.TrC17.range_inv
 #print axioms Agd.Tie.TrC17.healthcheck_backoff_not_active
+#print axioms Agd.Tie.TrC17.healthcheck_ctx_done_keeps
 #print axioms Agd.Tie.TrC17.healthcheck_failed_not_active
 #print axioms Agd.Tie.TrC17.fm_some
 #print axioms Agd.Tie.TrC17.healthcheck_ok_active
